@@ -17,6 +17,8 @@ ASSUME13 = [
     "API result equals that set (ResOK); input breadth is enumerated / drawn by the Python driver",
     "a multi-line value may come back with or without the single separator that follows 'key=' on the wire",
     "data lines that begin with the requested key itself followed by '=' are not generated (indistinguishable in-band)",
+    "half of the vectors have an unsolicited 650 event (single-line, multi-line or data-block) delivered just before the command is "
+    "issued or just before its reply; the expected result does not depend on it",
 ]
 CRIT12 = ["a", " ", "\t", '"', "\\", "=", "\r", "\n"]
 CRIT13 = ["a", "=", " ", '"', "'", "2", "5", "0", ".", "O", "K"]
@@ -106,11 +108,13 @@ def run(pid, tier, seed):
         rep.assumptions = list(ASSUME13)
         rep.tlc("KvLine_MC (grammar round trip)", tlc.run_tlc("KvLine_MC", "KvLine_MC_quick.cfg", workers=16, timeout=900))
         recs = []
+        noises = ["none"] * 6 + ["%s@%s" % (sh, at) for sh in ("midline", "block", "single") for at in ("before", "during")]
         for v in vectors13(tier, seed):
+            noise = rng.choice(noises)
             if v[0] == "info":
-                recs.append(kv.getinfo_vector(v[1], v[2], rng))
+                recs.append(kv.getinfo_vector(v[1], v[2], rng, noise))
             else:
-                recs.append(kv.getconf_vector(v[1], v[2], v[3], v[4], rng))
+                recs.append(kv.getconf_vector(v[1], v[2], v[3], v[4], rng, noise))
         key = lambda r: json.dumps([r["cmd"], r["kvs"], r["key"], r["unset"], r["vals"]])
     rep.cov["evaluations"] = len(recs)
     rep.cov["distinct_nontrivial"] = len(set(key(r) for r in recs))
@@ -119,7 +123,7 @@ def run(pid, tier, seed):
                        "(exhaustive short strings over {a,=,SP,\",',2,5,0,.,O,K} and random printable text), two keys, data blocks of 1-3 "
                        "lines incl. dot-stuffed / status look-alike / k=v lines, GETCONF unset / empty / 1..3 values; under whole, "
                        "byte-at-a-time and random segmentation; distinct by input")
-    traces = [dict((k, v) for k, v in r.items() if k not in ("args", "seg")) for r in recs]
+    traces = [dict((k, v) for k, v in r.items() if k not in ("args", "seg", "noise")) for r in recs]
     for t in traces:
         t["steps"] = [1]
     res, runs = tlc.validate_parallel("KvLineTrace", "KvLineTrace.cfg", traces, nproc=14, chunk=1500, timeout=3000)
@@ -172,10 +176,12 @@ def replay(pid, path):
         import ast
         rec = kv.setconf_vector([ast.literal_eval(a) for a in v["args"]], v["keysok"])
     elif v["cmd"] == "GETINFO":
-        rec = kv.getinfo_vector([(txt(k["key"]), k["block"], [txt(l) for l in k["lines"]]) for k in v["kvs"]], v.get("seg", "whole"), random.Random(0))
+        rec = kv.getinfo_vector([(txt(k["key"]), k["block"], [txt(l) for l in k["lines"]]) for k in v["kvs"]], v.get("seg", "whole"), random.Random(0),
+                                v.get("noise", "none"))
     else:
-        rec = kv.getconf_vector(txt(v["key"]), v["unset"], [txt(x) for x in v["vals"]], v.get("seg", "whole"), random.Random(0))
-    t = dict((k, x) for k, x in rec.items() if k not in ("args", "seg"))
+        rec = kv.getconf_vector(txt(v["key"]), v["unset"], [txt(x) for x in v["vals"]], v.get("seg", "whole"), random.Random(0),
+                                v.get("noise", "none"))
+    t = dict((k, x) for k, x in rec.items() if k not in ("args", "seg", "noise"))
     t["steps"] = [1]
     res, r = tlc.validate_traces("KvLineTrace", "KvLineTrace.cfg", [t])
     x = res[0]
